@@ -496,6 +496,22 @@ func runP7Mut(sc M) {
 				})
 				cases = append(cases, M{"obs": obs, "lib": verdict(ok, verr, o), "cert": ci, "panic": o.Panic, "via": via})
 			}
+			// ... and through one parsed Authenticode object that was asked about another certificate first (walking a list of trusted certificates)
+			if hi := peHashInput(src.image); hi != nil {
+				callStart(id, "Verify(authenticode, shared object)", M{"cert": ci})
+				o, _ := guard(func() error {
+					ok, verr = false, nil
+					a, err := authenticode.ParseAuthenticode(mut)
+					if err != nil {
+						verr = err
+						return nil
+					}
+					a.Verify(certByName("B"), bytes.NewReader(hi))
+					ok, verr = a.Verify(c, bytes.NewReader(hi))
+					return nil
+				})
+				cases = append(cases, M{"obs": obs, "lib": verdict(ok, verr, o), "cert": ci, "panic": o.Panic, "via": "authenticode-shared"})
+			}
 		}
 	}
 	// one parsed object verified against the certificates in turn (nothing learnt about one certificate may carry over to another):
